@@ -247,7 +247,9 @@ class Headers(CaseInsensitiveDict):
                 yield (str(k), str(v))
 
     def __bytes__(self):
-        return str(self).encode('latin1')
+        # a character outside latin-1 cannot be written in a header line: it
+        # goes out as '?' rather than making the whole response unwritable
+        return str(self).encode('latin1', 'replace')
 
     def append(self, key, value):
         """
